@@ -9,6 +9,8 @@ then for every job line on stdin `os.fork()` a child that runs the job and repor
 Every job therefore starts from the state of a fresh interpreter that has only imported typedpy;
 this is what "defined and used alone in a fresh interpreter" means operationally.
 """
+import datetime
+import decimal
 import enum
 import inspect
 import json
@@ -22,6 +24,10 @@ import sys
 def _prims():
     from typedpy import (Integer, String, Boolean, Float, Array, Enum, Map, Set, AnyOf, StructureReference,
                          Tuple, Number, Field)
+
+    from typedpy.extfields import (DateString, TimeString, DateField, TimeField, DateTime, IPV4, HostName,
+                                   JSONString)
+    from typedpy import DecimalNumber
 
     class PyEnum(enum.Enum):
         A = 1
@@ -60,13 +66,25 @@ def _prims():
         15: (lambda d: factory1, 1, 9, 0, None),
         16: (lambda d: Tuple[Integer, String], (1, "a"), (2, ""), (1, 2), None),
         17: (dflt(Number, {"multiplesOf": 2}, 4), 6, 0, 3, 4),
+        # ext fields, with and without defaults
+        18: (dflt(DateString, {}, "2021-02-03"), "2020-01-05", "1999-12-31", "x", "2021-02-03"),
+        19: (dflt(TimeString, {}, "01:02:03"), "10:20:30", "23:59:59", "x", "01:02:03"),
+        20: (dflt(DateField, {}, datetime.date(2021, 2, 3)), datetime.date(2020, 1, 5), "2019-03-04", "x",
+             datetime.date(2021, 2, 3)),
+        21: (dflt(TimeField, {}, datetime.time(4, 5, 6)), datetime.time(1, 2, 3), datetime.time(0, 0, 1), "x",
+             datetime.time(4, 5, 6)),
+        22: (lambda d: DateTime(), datetime.datetime(2020, 1, 5, 1, 2, 3), datetime.datetime(2001, 2, 3, 4, 5, 6), "x", None),
+        23: (dflt(IPV4, {}, "9.9.9.9"), "1.2.3.4", "10.0.0.1", "1.2.3", "9.9.9.9"),
+        24: (dflt(HostName, {}, "h.org"), "example.com", "a.b.c", "-x-", "h.org"),
+        25: (lambda d: DecimalNumber(), decimal.Decimal("1.5"), decimal.Decimal("-2"), "x", None),
+        26: (lambda d: JSONString(), '{"a": 1}', "[]", "{", None),
     }
     return P, PyEnum
 
 
 INLINES = {12: 1}
-N_PRIMS = 18
-DEFAULTABLE = [0, 1, 2, 3, 4, 5, 8, 17]
+N_PRIMS = 27
+DEFAULTABLE = [0, 1, 2, 3, 4, 5, 8, 17, 18, 19, 20, 21, 23, 24]
 INTERNAL = ("_instantiated", "_none_fields", "_trust_supplied_values", "_skip_validation")
 
 
@@ -80,8 +98,77 @@ def err_name(e):
     return type(e).__name__
 
 
+# source text of the primitive kinds usable in classes written to a module file: (expression, default literal)
+PRIM_SRC = {
+    0: ("Integer()", "7"), 1: ("Integer(minimum=0, maximum=10)", "2"), 2: ("String()", "'d'"),
+    3: ("String(maxLength=3)", "'z'"), 4: ("Boolean()", "True"), 5: ("Float()", "2.5"), 6: ("Array[Integer]", None),
+    8: ("Enum(values=['x', 'y'])", "'y'"), 9: ("Map[String, Integer]", None), 10: ("Set[Integer]", None),
+    17: ("Number(multiplesOf=2)", "4"), 18: ("DateString()", "'2021-02-03'"), 19: ("TimeString()", "'01:02:03'"),
+    23: ("IPV4()", "'9.9.9.9'"), 24: ("HostName()", "'h.org'"),
+}
+
+
+def class_source(c, src, names, quoted, indent):
+    """the class statement of `src` (annotation style); `names[cid]` = class name as written"""
+    p = src.get("parent")
+    bases = names[p["c"]] if p else ("Structure, FastSerializable" if src.get("fast") else "Structure")
+    lines = [f"class {src['name']}({bases}):"]
+    body = []
+    for f in src["fields"]:
+        k = f["kind"]
+        if "prim" in k:
+            ann, dflt = PRIM_SRC[k["prim"]]
+            body.append(f"{f['name']}: {ann}" + (f" = {dflt}" if f.get("default") else ""))
+        else:
+            ann = names[k["ref"]]
+            if k.get("arr"):
+                ann = f"Array[{ann}]"
+            body.append(f"{f['name']}: " + (repr(ann) if quoted else ann))
+    mapper = {f["name"]: f["key"] for f in src["fields"] if f.get("key") and f["key"] != f["name"]}
+    if mapper:
+        body.append(f"_serialization_mapper = {mapper!r}")
+    if src.get("addProps") is not None:
+        body.append(f"_additionalProperties = {src['addProps']!r}")
+    if src.get("ignoreNone"):
+        body.append("_ignore_none = True")
+    if not body:
+        body.append("pass")
+    return [indent + lines[0]] + [indent + "    " + b for b in body]
+
+
+def module_source(ops, mode):
+    """one module for the whole job: a module-level class is created by `define_<c>()` (with a `global`
+    declaration, so that it is bound in the module namespace when that op runs); the classes of a function
+    scope are created one per `next()` of the generator function `scope_<s>()`, whose frame — with the
+    classes defined so far as its locals — persists between the ops"""
+    quoted = mode == "quoted"
+    out = (["from __future__ import annotations"] if mode == "future" else []) + [
+        "from typedpy import *", "from typedpy.extfields import *",
+        "from typedpy.serialization.fast_serialization import FastSerializable", ""]
+    names = {op["c"]: op["src"]["name"] for op in ops if op["op"] == "define"}
+    scopes = {}
+    for op in ops:
+        if op["op"] != "define":
+            continue
+        c, src = op["c"], op["src"]
+        if src.get("scope", "module") == "module":
+            out += [f"def define_{c}():", f"    global {src['name']}"] + class_source(c, src, names, quoted, "    ") + \
+                   [f"    return {src['name']}", ""]
+        else:
+            scopes.setdefault(src["scope"], []).append((c, src))
+    for s, items in sorted(scopes.items()):
+        out.append(f"def scope_{s}():")
+        for c, src in items:
+            out += class_source(c, src, names, quoted, "    ") + [f"    yield {src['name']}"]
+        out.append("")
+    return "\n".join(out) + "\n"
+
+
 class Env:
     def __init__(self, types):
+        self.module = None
+        self.gens = {}
+        self.tmpdir = None
         self.P, self.PyEnum = _prims()
         self.types = {}
         for t in types:
@@ -120,6 +207,10 @@ class Env:
             return {"f": v.hex()}
         if isinstance(v, enum.Enum):
             return {"e": v.name}
+        if isinstance(v, (datetime.date, datetime.time, datetime.datetime)):
+            return {"dt": v.isoformat()}
+        if isinstance(v, decimal.Decimal):
+            return {"dec": str(v)}
         if isinstance(v, Structure):
             return {"o": sorted([k, self.canon(x, depth + 1)] for k, x in v.__dict__.items() if k not in INTERNAL)}
         if hasattr(type(v), "_verif_id"):
@@ -135,7 +226,7 @@ class Env:
 
     def canon_json(self, v):
         """serialized documents / schemas: erase inline class names, keep structure"""
-        s = json.dumps(v, sort_keys=True, default=lambda o: {"x": type(o).__name__})
+        s = json.dumps(v, sort_keys=True, default=lambda o: {"x": type(o).__name__, "v": str(o)})
         import re
         return re.sub(r"StructureReference_\d+", "StructureReference_N", s)
 
@@ -155,7 +246,41 @@ class Env:
             return Array(items=[self.classes[c] for c in k["refs"]])
         raise ValueError(k)
 
+    def load_module(self, ops, mode):
+        import importlib
+        import tempfile
+        self.tmpdir = tempfile.mkdtemp(prefix="verif_world_")
+        name = "verif_scoped_%d" % os.getpid()
+        with open(os.path.join(self.tmpdir, name + ".py"), "w", encoding="utf-8") as f:
+            f.write(module_source(ops, mode))
+        sys.path.insert(0, self.tmpdir)
+        self.module = importlib.import_module(name)
+
+    def cleanup(self):
+        if self.tmpdir:
+            import shutil
+            shutil.rmtree(self.tmpdir, ignore_errors=True)
+
+    def define_scoped(self, c, src):
+        for f in src["fields"]:
+            if "ref" in f["kind"] and f["kind"]["ref"] not in self.classes:
+                raise NameError("class %d is not defined" % f["kind"]["ref"])
+        if src.get("parent") and src["parent"]["c"] not in self.classes:
+            raise NameError("class %d is not defined" % src["parent"]["c"])
+        if src.get("scope", "module") == "module":
+            cls = getattr(self.module, "define_%d" % c)()
+        else:
+            s = src["scope"]
+            if s not in self.gens:
+                self.gens[s] = getattr(self.module, "scope_%d" % s)()
+            cls = next(self.gens[s])
+        self.classes[c] = cls
+        self.srcs[c] = src
+        return cls
+
     def define(self, c, src):
+        if self.module is not None:
+            return self.define_scoped(c, src)
         from typedpy import Structure, Partial
         from typedpy.serialization.fast_serialization import FastSerializable
         p = src.get("parent")
@@ -328,6 +453,8 @@ class Env:
                 finally:
                     res["required"] = sorted(cls._required)
                     res["wrote"] = res["required"] != before
+            elif kind == "schemaCode":
+                self.schema_code(cls)
             elif kind == "createSerializer":
                 flags = {k: bool(v) for k, v in (op.get("flags") or {}).items()}
                 create_serializer(cls, **flags)
@@ -478,6 +605,19 @@ class Env:
         except Exception as e:
             fp["schema"] = {"err": err_name(e)}
         fp["requiredAfterSchema"] = sorted(cls._required)
+        fp["schemaCode"] = self.schema_code(cls)
+
+    @staticmethod
+    def schema_code(cls):
+        """schema -> code of the class's own schema (from_json_schema of every field kind)"""
+        from typedpy.json_schema import structure_to_schema, schema_to_struct_code
+        try:
+            schema, defs = structure_to_schema(cls, {})
+            if not (isinstance(schema, dict) and schema.get("type") == "object"):
+                return {"skip": "not an object schema"}
+            return {"ok": schema_to_struct_code("Generated", schema, defs)}
+        except Exception as e:
+            return {"err": err_name(e)}
 
     def is_fast(self, c):
         from typedpy.serialization.fast_serialization import FastSerializable
@@ -491,6 +631,15 @@ class Env:
 
 def run_job(job):
     env = Env(job.get("types", []))
+    try:
+        if job.get("scoped"):
+            env.load_module(job["ops"], job["scoped"].get("mode", "future"))
+        return _run_job(env, job)
+    finally:
+        env.cleanup()
+
+
+def _run_job(env, job):
     out = {"steps": env.run_ops(job["ops"])}
     out["world"] = env.world_state()
     out["state"] = {str(c): env.state(c) for c in sorted(env.classes)}
